@@ -35,11 +35,11 @@ type Child struct {
 }
 
 type Case struct {
-	IsWay    bool
-	Children []Child
-	Updates  []Upd
+	IsWay     bool
+	Children  []Child
+	Updates   []Upd
 	T, T1, T2 int64 // query times (same unit); T1 <= T2
-	Order    int   // 0 index-sorted (as annotation emits), 1 time-sorted, 2 as drawn (shuffled)
+	Order     int   // 0 index-sorted (as annotation emits), 1 time-sorted, 2 as drawn (shuffled)
 }
 
 var base = time.Date(2015, 3, 1, 12, 0, 0, 0, time.UTC)
